@@ -208,7 +208,7 @@ def gen_send(tier, r):
     for start in (CTR_MAX - 1, CTR_MAX - 2, CTR_MAX - 3, CTR_MAX):
         for ns in ([1], [1024, 1], [1025], [2049], [0, 1, 1, 1], [1024, 1025], [3072, 1]):
             cases.append(dict(ctr=start, payloads=[rbytes(r, n) for n in ns]))
-    n_rand = 250 if tier == "quick" else 6000
+    n_rand = 250 if tier == "quick" else 3000
     for _ in range(n_rand):
         k = r.choice([1, 1, 2, 3, 5])
         pl = []
@@ -373,7 +373,7 @@ def gen_recv(tier, r):
         cases.append(dict(frames=frames, cuts=cuts, mutation=mutation, ctr=ctr, key=key, style=style))
 
     # exhaustive: every single and double cut of small streams (<= 120 bytes)
-    sets = SMALL_SETS[:3] if tier == "quick" else SMALL_SETS
+    sets = SMALL_SETS[:4] if tier == "quick" else SMALL_SETS
     for sizes in sets:
         key = key_of(r)
         frames = [rbytes(r, n) for n in sizes]
@@ -405,7 +405,7 @@ def gen_recv(tier, r):
     for start in (CTR_MAX - 2, CTR_MAX - 1, CTR_MAX):
         add([b"a", b"bc", b"def"], [5], ctr=start, style="ctr-limit")
     # random large streams
-    n_rand = 1500 if tier == "quick" else 30000
+    n_rand = 1500 if tier == "quick" else 12000
     for _ in range(n_rand):
         k = r.choice([1, 2, 3, 4, 6, 10])
         frames = []
@@ -675,7 +675,7 @@ def run(ctx):
     cov.extra["exhaustive"] = True
     cov.extra["exhaustive_part"] = ("recv: every single and double read boundary (0..len, incl. empty reads) of %d streams <= 120 bytes; "
                                     "every single-bit flip of %d small streams; send: payload lengths %s at counter 0"
-                                    % (len(SMALL_SETS[:3] if tier == "quick" else SMALL_SETS), 2 if tier == "quick" else 4, SEND_LENS))
+                                    % (len(SMALL_SETS[:4] if tier == "quick" else SMALL_SETS), 2 if tier == "quick" else 4, SEND_LENS))
     cov.extra["domain"] = ("inbound frame sizes 0..65535 (mostly 1..1024); counters up to and across 2^64; "
                            "authentication failure = real ChaCha20-Poly1305 rejection (model: entry absent from the finite open table)")
     cov.extra["trusted_base_extra"] = [
